@@ -13,7 +13,8 @@
    Plumbing as in TraceLib.tla (own names, because SSHSession already defines Ev). *)
 EXTENDS SSHSession, Json
 
-VARIABLES l, acc      \* acc: calls that returned during the burst in progress
+VARIABLES l, acc,     \* acc: calls that returned during the burst in progress
+          cv         \* variant (request name) of each call, by call index
 
 JTrace == ndJsonDeserialize("trace.ndjson")
 Ln == JTrace[l]
@@ -29,12 +30,13 @@ HWMInit == TLCSet(1, 1)
 SrvKinds == {"sreply", "sdata", "seof", "sexit", "sexitbad", "ssig", "ssigbad", "ska", "sclose", "sdrop"}
 
 \* the level at which the driver classifies results: errors other than *ExitError / *ExitMissingError are one class
-Norm(res, call) ==
+Norm(res, k, v) ==
   IF res.c \in {"err", "malformed", "copyerr"} THEN R("other", 0, "")
-  ELSE IF res.c = "false" /\ call.k = "reqwr" /\ call.v # "raw" THEN R("other", 0, "")
+  ELSE IF res.c = "false" /\ k = "reqwr" /\ v # "raw" THEN R("other", 0, "")    \* Setenv & co: failure reply = error
   ELSE res
 
-NormDone(s) == {<<d[1], Norm(d[2], s.calls[d[1]])>> : d \in s.done}
+NormDone(s, c) == {<<d[1], Norm(d[2], s.calls[d[1]].k, c[d[1]])>> : d \in s.done}
+CvNext(ln) == IF ln.k \in SrvKinds \/ ~IsCall(Ev(ln.k, ln.v, ln.x)) THEN cv ELSE Append(cv, ln.v)
 LnDone(ln) == {<<ln.done[i][1], ln.done[i][2]>> : i \in 1 .. Len(ln.done)}
 
 \* what does not depend on timing inside a burst of server events
@@ -51,34 +53,36 @@ Delivered(s, ln) ==
 Racy(D) == {<<d[1], IF d[2].c = "nil" THEN R("other", 0, "") ELSE d[2]>> : d \in D}
 DoneOK(s, D, ln) == D = LnDone(ln) \/ (s.ioRace /\ Racy(D) = LnDone(ln))
 
+\* after an early return of Session.wait the answers to keepalives are not compared (SSHSession.Unserviced)
+NoFail(q) == SelectSeq(q, LAMBDA x : x # "fail")
 ObsOK(s, ln) ==
-  /\ s.out = ln.out
-  /\ DoneOK(s, NormDone(s), ln)
+  /\ IF s.early THEN NoFail(s.out) = NoFail(ln.out) ELSE s.out = ln.out
+  /\ DoneOK(s, NormDone(s, CvNext(ln)), ln)
   /\ Delivered(s, ln)
-  /\ ln.ka = s.ka
+  /\ s.early \/ ln.ka = s.ka
 
 StepOf(ln) == LET e == Ev(ln.k, ln.v, ln.x) IN
               IF ln.k \in SrvKinds THEN SrvStep(S, e) ELSE CliStep(S, e)
 
-TReset == IsLn("reset") /\ UNCHANGED <<S, hist>> /\ acc' = {}
-TCfg == IsLn("cfg") /\ S' = Init0([stdin |-> Ln.k, outs |-> Ln.v]) /\ hist' = hist /\ acc' = {}
+TReset == IsLn("reset") /\ UNCHANGED <<S, hist>> /\ acc' = {} /\ cv' = <<>>
+TCfg == IsLn("cfg") /\ S' = Init0([stdin |-> Ln.k, outs |-> Ln.v]) /\ hist' = hist /\ acc' = {} /\ cv' = <<>>
 \* one event, observed at the quiescent point after it
 TStep == /\ IsLn("step")
          /\ LET ns == StepOf(Ln) IN ObsOK(ns, Ln) /\ S' = ns
-         /\ hist' = hist /\ acc' = {}
+         /\ hist' = hist /\ acc' = {} /\ cv' = CvNext(Ln)
 \* a server event inside a burst (the next one was sent without waiting): nothing was observed
 TQuiet == /\ IsLn("quiet")
-          /\ LET ns == StepOf(Ln) IN S' = ns /\ acc' = acc \cup NormDone(ns)
-          /\ hist' = hist
+          /\ LET ns == StepOf(Ln) IN S' = ns /\ acc' = acc \cup NormDone(ns, CvNext(Ln))
+          /\ hist' = hist /\ cv' = CvNext(Ln)
 \* the last event of a burst: calls that returned during the burst, and what was delivered
 TBurst == /\ IsLn("burst")
           /\ LET ns == StepOf(Ln) IN
-               /\ DoneOK(ns, acc \cup NormDone(ns), Ln)
+               /\ DoneOK(ns, acc \cup NormDone(ns, CvNext(Ln)), Ln)
                /\ Delivered(ns, Ln)
                /\ S' = ns
-          /\ hist' = hist /\ acc' = {}
+          /\ hist' = hist /\ acc' = {} /\ cv' = CvNext(Ln)
 
-TraceInit == S = Init0([stdin |-> "nil", outs |-> "nil"]) /\ hist = <<>> /\ l = 1 /\ acc = {} /\ HWMInit
+TraceInit == S = Init0([stdin |-> "nil", outs |-> "nil"]) /\ hist = <<>> /\ l = 1 /\ acc = {} /\ cv = <<>> /\ HWMInit
 TraceNext == TReset \/ TCfg \/ TStep \/ TQuiet \/ TBurst
-TraceSpec == TraceInit /\ [][TraceNext]_<<S, hist, l, acc>>
+TraceSpec == TraceInit /\ [][TraceNext]_<<S, hist, l, acc, cv>>
 =============================================================================
